@@ -83,7 +83,88 @@ pub fn judge_program(
     levels: &[u8],
     pin_sig: Option<&str>,
 ) -> CaseResult {
-    let src = print_program(p);
+    judge_program_src(prop, kind, idx, p, tag, levels, pin_sig, None)
+}
+
+/// Text that conditional compilation must drop, written into the body of main: groups that are
+/// never selected (nested, with #else / #elif parts, with directives and statements inside).
+/// The program means what it meant without them.
+pub fn with_dead_text(src: &str, p: &Program, idx: u64) -> String {
+    let mut rng = crate::util::Rng::for_case("C01dead", idx);
+    let g: Vec<&str> = p
+        .vars
+        .iter()
+        .filter(|v| v.scope == Scope::Global && v.mem == MemClass::Zp && matches!(v.kind, VarKind::Scalar(Ty::U8)))
+        .map(|v| v.name.as_str())
+        .collect();
+    if g.is_empty() {
+        return src.to_string();
+    }
+    let mut junk = |rng: &mut crate::util::Rng| {
+        let a = g[rng.below(g.len() as u64) as usize];
+        match rng.below(3) {
+            0 => format!("  {} = {};", a, rng.below(250)),
+            1 => format!("  {}++;", a),
+            _ => format!("  {} = {} + {};", a, g[rng.below(g.len() as u64) as usize], 1 + rng.below(9)),
+        }
+    };
+    let block = |rng: &mut crate::util::Rng, junk: &mut dyn FnMut(&mut crate::util::Rng) -> String| -> Vec<String> {
+        let outer = ["#ifdef NEVER_DEFINED_A", "#if 0", "#ifndef ALWAYS_1", "#if ALWAYS_0"][rng.below(4) as usize];
+        let inner = ["#ifndef NEVER_DEFINED_B", "#ifdef ALWAYS_1", "#if 1", "#ifdef NEVER_DEFINED_B", "#if ALWAYS_0"][rng.below(5) as usize];
+        let mut v = vec![outer.to_string(), junk(rng)];
+        if rng.chance(2, 3) {
+            v.push(inner.to_string());
+            v.push(junk(rng));
+            match rng.below(3) {
+                0 => {
+                    v.push("#else".into());
+                    v.push(junk(rng));
+                }
+                1 => {
+                    v.push("#elif 1".into());
+                    v.push(junk(rng));
+                    v.push("#else".into());
+                    v.push(junk(rng));
+                }
+                _ => {}
+            }
+            if rng.chance(1, 3) {
+                v.push("#define ALWAYS_0 1".into());
+                v.push("#undef ALWAYS_1".into());
+            }
+            v.push("#endif".into());
+        }
+        v.push(junk(rng));
+        v.push("#endif".into());
+        v
+    };
+    let mut out: Vec<String> = vec!["#define ALWAYS_1 1".into(), "#define ALWAYS_0 0".into()];
+    let lines: Vec<&str> = src.lines().collect();
+    let main_at = lines.iter().position(|l| l.starts_with("void main()"));
+    let last_brace = lines.iter().rposition(|l| *l == "}");
+    for (i, l) in lines.iter().enumerate() {
+        if Some(i) == last_brace && main_at.is_some() {
+            out.extend(block(&mut rng, &mut junk));
+        }
+        out.push(l.to_string());
+        if Some(i) == main_at {
+            out.extend(block(&mut rng, &mut junk));
+        }
+    }
+    out.join("\n") + "\n"
+}
+
+pub fn judge_program_src(
+    prop: &str,
+    kind: &str,
+    idx: u64,
+    p: &Program,
+    tag: &str,
+    levels: &[u8],
+    pin_sig: Option<&str>,
+    src_override: Option<String>,
+) -> CaseResult {
+    let src = src_override.unwrap_or_else(|| print_program(p));
     let key = crate::util::hash_str(&src);
     let mut res = CaseResult::new("accepted", key);
     let mut kinds = std::collections::BTreeSet::new();
@@ -187,6 +268,8 @@ impl Monitor for C01 {
         // the optimiser-bait and hardware profiles are valid C too: judged against the reference
         let nb = n / 4;
         v.extend(split_chunks("bait", seed_offset(seed, "C01b", 400_000), nb, 400_000, 150));
+        // the random programs again, with never-selected conditional groups written into main
+        v.extend(split_chunks("deadtext", seed_offset(seed, "C01d", RAND_POOL), n / 6, RAND_POOL, 150));
         v
     }
     fn run_case(&self, kind: &str, idx: u64) -> CaseResult {
@@ -202,6 +285,15 @@ impl Monitor for C01 {
                     return CaseResult::new(why, idx);
                 }
                 judge_program("C01", kind, idx, &p, "C01b", &[0, 1], None)
+            }
+            "deadtext" => {
+                let p = gen_program("C01", idx, &cfg_c01());
+                let src = with_dead_text(&print_program(&p), &p, idx);
+                let mut r = judge_program_src("C01", kind, idx, &p, "C01", &[(idx % 2) as u8], None, Some(src));
+                if r.nontrivial {
+                    r.count("programs judged with never-selected conditional groups inside main", 1);
+                }
+                r
             }
             _ => {
                 let p = gen_program("C01", idx, &cfg_c01());
